@@ -128,7 +128,9 @@ pub(crate) fn compile_regex(
         // The fancy_regex crate internally seems to have flags that can be used
         // to enable multiline support, but they're not exposed via its
         // RegexBuilder. We instead just prefix with the right flags.
-        let updated_str = std::format!("(?ms){regex_str}");
+        // N.B. Only `s` (dot matches newline): with `m`, `^` and `$` would also match at
+        // every line of the subject, and a pattern has to match the whole string.
+        let updated_str = std::format!("(?s){regex_str}");
         regex_str = updated_str.into();
     }
 
